@@ -148,6 +148,16 @@ theorem fact_add_commits_index_before_event_transaction :
     Facts.C10.addBetweenTransactions =
       ["if err != nil { return fmt.Errorf(\"database error on commit: %w\", err) }"] := by decide
 
+/-- `store.Add` has no read-only transaction, and every step that looks at or changes the event list
+    (`readEventList`, `contains`, `insert`, `applyFrom`, `writeEventList`) runs inside the SAME `tl.db.Write` callback,
+    taken with the write lock: a read-modify-write in one transaction. This is exactly what justifies `addDid` / `add`
+    being ONE atomic step of the model: overlapping Adds are serialised at that transaction, so every concurrent
+    schedule is an arrival sequence and the order-independence theorems cover it. -/
+theorem fact_event_list_read_modify_write_in_one_transaction :
+    Facts.C10.addReadTransactions = [] ∧ Facts.C10.addEventListStepsOutsideWriteTx = [] ∧
+    Facts.C10.addWriteTransactions.getLast? =
+      some "readEventList,contains,insert,applyFrom,writeEventList stoabs.WithWriteLock()" := by decide
+
 /-! ### `before` is a strict total order on events with distinct refs -/
 
 theorem before_strict_total :
@@ -595,6 +605,38 @@ theorem one_tx_add_order_dependent_witness :
   | ok c => rw [h] at this; cases this
   | panic x => rw [h] at this; cases this
   | err x => rw [h] at this; simp only [beq_iff_eq] at this; rw [this]
+
+/-! ### overlapping Adds -/
+
+/-- **Atomic Adds: every schedule is an arrival order.** `add` is one step because the event list is read, changed
+    and written in one serialised write transaction (`fact_event_list_read_modify_write_in_one_transaction`). Two stores
+    fed the same set by ANY two schedules of overlapping Adds therefore fall under `resolve_order_independent`; spelled
+    out for a pair: adding `a` then `b`, or `b` then `a`, on any reachable state gives the same DID states. -/
+theorem overlapping_atomic_adds_commute (σ : Field → List Entry → List Entry) (hσ : ∀ f l, (σ f l).Perm l)
+    (l : List Event) (a b : Event) (hU : RefFun (l ++ [a, b])) (s₁ s₂ : Store)
+    (r₁ : addAll (cfgOf σ Facts.C10.mergeSortedFields) {} (l ++ [a, b]) = .ok s₁)
+    (r₂ : addAll (cfgOf σ Facts.C10.mergeSortedFields) {} (l ++ [b, a]) = .ok s₂) :
+    ∀ id, s₁.get id = s₂.get id ∧ ∀ rm, resolve s₁ id rm = resolve s₂ id rm := by
+  apply resolve_order_independent σ σ hσ hσ (l ++ [a, b]) (l ++ [b, a]) hU _ s₁ s₂ r₁ r₂
+  intro e
+  simp only [List.mem_append, List.mem_cons, List.mem_nil_iff, or_false]
+  constructor <;> (rintro (h | h | h) <;> simp [h])
+
+/-- **Check-then-act Adds lose an accepted transaction.** If the event list is captured before the write transaction,
+    two overlapping Adds of the fork branches A and B both start from {create}; B's write overwrites A's: the history has
+    two events instead of three, A is gone, and no conflict is recorded — while either sequential order gives the
+    three-event conflicted state. -/
+theorem stale_read_add_loses_update_witness :
+    (match addDidAll cfg0 {} [evCreate] with
+      | .ok st =>
+        (match addStalePair cfg0 st evA evB with
+          | .ok s => s.events.map (·.ref) == [100, 150] && !s.conflicted
+          | _ => false) &&
+        (match addDidAll cfg0 st [evA, evB], addDidAll cfg0 st [evB, evA] with
+          | .ok s₁, .ok s₂ => s₁.events.map (·.ref) == [100, 150, 200] && s₁.conflicted &&
+              s₂.events.map (·.ref) == [100, 150, 200] && s₂.conflicted
+          | _, _ => false)
+      | _ => false) = true := by decide
 
 /-! ### the by-time form of the deactivation clause is FALSE of the code (open finding) -/
 
